@@ -504,6 +504,18 @@ let verify_block (b : blk) : vblk =
                    let cur = try Hashtbl.find fp_sites nested with Not_found -> [] in
                    Hashtbl.replace fp_sites nested ((f + int_of_n d.d2_base.d_env) :: cur)) (aget2 annot i.i_pc)
            | _ -> ()) b.ins;
+       (* informational (needs the `const <i> C <scope index> ..` form of hooks.d/C03-binding-locators.patch): the environment
+          PushScope creates gets index fp + relative depth, which is what the scope's own index (used by its locators) must be *)
+       List.iter (fun i -> match i.i_op, i.i_args with
+           | Op_PushScope, [AIdx k] when int_of_n k < Array.length consts ->
+               (match consts.(int_of_n k) with
+                | (CScope, sidx) when sidx >= 0 ->
+                    List.iter (fun (d : depth2) ->
+                        Printf.printf "note %d push-scope %s pc=%d scope_index=%d environment_index=%d\n" b.bid
+                          (if sidx = f + int_of_n d.d2_base.d_env then "ok" else "MISMATCH") (int_of_n i.i_pc) sidx (f + int_of_n d.d2_base.d_env))
+                      (aget2 annot i.i_pc)
+                | _ -> ())
+           | _ -> ()) b.ins;
        (* function constants of the script never created by a GetFunction: global function declarations *)
        if !main_block = Some b.bid then
          Array.iteri (fun idx (k, nested) ->
